@@ -220,6 +220,12 @@ def legacy_run(c):
     for n in names:
         c.holds(f'{n}:two_columns', r1[n].samples.shape[-1] == 2 and r2[n].samples.shape[-1] == 2)
         c.eq(f'{n}:split_run_same_chain', r2[n].samples, r1[n].samples)
+    # with warm-up: sample(1, Nb=1) then sample(1) continues from the last SAMPLE, as sample(2, Nb=1) does
+    G3, _ = mk(); r3 = G3.sample(2, 1)
+    G4, _ = mk(); G4.sample(1, 1); r4 = G4.sample(1)
+    for n in names:
+        c.holds(f'{n}:after_warmup:two_columns', r3[n].samples.shape[-1] == 2 and r4[n].samples.shape[-1] == 2, note=f"{r3[n].samples.shape} {r4[n].samples.shape}")
+        c.eq(f'{n}:after_warmup:split_run_same_chain', r4[n].samples, r3[n].samples)
 
 
 def jobs(tier):
